@@ -1,8 +1,10 @@
+#[cfg(not(cstree_verif))]
+use std::{fmt, sync::atomic::AtomicU32};
+// verification build: the reference count is an instrumented atomic
 #[cfg(cstree_verif)]
 use crate::verif::AtomicU32;
+#[cfg(cstree_verif)]
 use std::fmt;
-#[cfg(not(cstree_verif))]
-use std::sync::atomic::AtomicU32;
 
 use text_size::{TextRange, TextSize};
 
